@@ -374,6 +374,7 @@ def run(chk):
            fi=v.fi)
   for fq, typ, core, label in MUST_RAISE:
     must_raise(chk, 'C19-R1', fq, typ, core, label)
+  K.bad_functor_arguments_diagnosed(chk, 'C19-R1')
   # the range-restriction check reports InternalVariables() = AllVariables() -
   # ExtractedVariables(): AllVariables must see the variables of every part of
   # the structure, and the collector must descend below the top level of the
